@@ -789,8 +789,11 @@ def updatedCm (inner : List (Chan × Option Chan)) (outer : List (Chan × Option
     | some o => do let r ← chanLookup outer o; pure (k, r))
 
 /-- `MappingPulseTemplate.map_parameter_values` (used when the mapping template is part of an atomic
-template): constraints, then *all* mapped values, eagerly, into a plain dictionary -/
+template): external parameters present, constraints, then *all* mapped values, eagerly, into a plain dictionary -/
 def mapParameterValues (pm : List (String × Expr)) (cons : List Expr) (σ : Scope) : Except Err Scope := do
+  -- `_validate_parameters`: every external parameter must be a key of the scope (no evaluation yet)
+  (pm.flatMap (fun (_, e) => e.vars) ++ cons.flatMap Expr.vars).forM (fun x =>
+    if σ.keys.contains x then pure () else .error .parameterMissing)
   validateCons cons σ.look
   let kv ← pm.mapM (fun (p, e) => do let v ← σ.eval e; pure (p, v))
   pure (.dict kv)
